@@ -49,7 +49,7 @@ def run_scn(scn):
     ch.makeConnection(tr)
     req = (b"HEAD" if cfg["head"] else b"GET") + b" /x HTTP/1." + (b"1" if cfg["minor"] else b"0") + b"\r\nHost: h\r\n"
     if cfg.get("cc"):
-        req += b"Connection: close\r\n"
+        req += b"Connection: " + (b"keep-alive" if cfg["cc"] == "keep-alive" else b"close") + b"\r\n"
     ch.dataReceived(req + b"\r\n")
     r = got[0]
     tr.clear()
@@ -122,7 +122,7 @@ def gen_value(rng, spicy, txt, lo=0, hi=7):
 
 def random_scn(rng):
     from harness.adapters import c20_http as H
-    cfg = {"minor": rng.choice([1, 1, 0]), "head": rng.random() < 0.2, "cc": rng.random() < 0.2}
+    cfg = {"minor": rng.choice([1, 1, 0]), "head": rng.random() < 0.2, "cc": rng.choice([False, False, False, "close", "keep-alive"])}
     sp = lambda: rng.random() < 0.12
     pre = []
     if rng.random() < 0.6:
@@ -304,11 +304,11 @@ def run(ctx):
         raise MachineryError("negative control: OracleRejects not evaluated (%s)" % (n.error or "no violation"))
 
     classes = ["ALPHA", "LB", "NUL", "CTL", "WS", "OBS", "SEMI", "EQ", "COLON", "COMMA", "DQ", "PUNCT", "TPUNCT", "DIGIT"]
-    scns = field_scns(ctx.rng, ctx.pick(2, 3), classes if not ctx.quick else classes[:10])
+    scns = field_scns(ctx.rng, ctx.pick(2, 3), classes if not ctx.quick else classes[:8])
     ctx.exhaustive = True
     ctx.extra["exhaustive_rule"] = "every sequence of <= %d octet-class symbols in each of 6 argument positions (reason, header name, header value, cookie key, cookie value, cookie attribute), one position at a time" % ctx.pick(2, 3)
     nfield = len(scns)
-    for _ in range(ctx.pick(900, 40000)):
+    for _ in range(ctx.pick(600, 40000)):
         scns.append(random_scn(ctx.rng))
     traces = [run_scn(s) for s in scns]
     ctx.extra["per_field_exhaustive_scenarios"] = nfield
